@@ -10,7 +10,7 @@ pub const WEATHERS: [(f64, f64); 5] = [(100.0, -90.0), (1050.0, 57.0), (1050.0, 
 
 fn call(p: &Params, site: Site, date: NaiveDate, w: Option<(f64, f64)>, l: &mut Local) -> R {
     l.evals += 1;
-    prayer_times_dt(p, site.loc(), date, w.map(|(a, b)| weather(a, b)))
+    pt(p, site.loc(), date, w.map(|(a, b)| weather(a, b)))
 }
 fn clean(r: &R) -> bool {
     SEQ7.iter().all(|k| matches!(r[k], Ok(t) if !t.extreme))
